@@ -1122,3 +1122,110 @@ def _(c):
                           last.tag == STR('TIMESTAMP'), S.ubox(last.ts) == S.ubox(s.ts))
         return z3.And(S.ubox(found.ts) == S.ubox(s.ts), ents_new == ents_old)
     c.ensures('existing-timestamp-updated-else-one-appended-to-the-top-level-manifest', post, internal=True)
+
+
+# --------------------------------------------------------------------------
+# load_manifests_for_path: what gets queued for loading (C02)
+#
+# The body is verified for its call sites: a sub-Manifest is queued only as (path, its MANIFEST entry) -- the entry is
+# dropped only when the caller asked for verify=False -- and the queue goes to the ManifestLoader of this loader, whose
+# verify_and_load contract checks size and digests before parsing.  The fixed point itself (every applicable Manifest is
+# eventually loaded) is bounded (chains of depth <= 5).
+
+def _queue_model(it, bound, node):
+    """A-pool at this call site: the results of the loader for every queued pair, as an opaque iterable"""
+    it.engine.assumed.add('A-pool: imap_unordered(f, xs) lazily yields f(x) for every x of xs')
+    o = VOpaque(it.ctx.fresh_const('loaded_pairs', U))
+    return o
+
+
+def _load_for_path_body():
+    c = REGISTRY_[('gemato/recursiveloader.py', 'ManifestRecursiveLoader.load_manifests_for_path')]
+    c.trusted = False       # callers keep the call-site model
+    c.props[:] = ['C02', 'C18']
+    c.returns(NoneT)
+    c.only_raises(*GEMATO_ERRORS)
+    ToLoad = ListT(TupleT(Str, Opt(PathEntry)))
+
+    def setup(it, fr, bound):
+        import copy
+        c_ = REGISTRY_[('gemato/util.py', 'MultiprocessingPoolWrapper.imap_unordered')]
+        c2 = copy.copy(c_)
+        c2.model = _queue_model
+        it.engine.registry = dict(it.engine.registry)
+        it.engine.registry[('gemato/util.py', 'MultiprocessingPoolWrapper.imap_unordered')] = c2
+
+        def dict_update(itp, cell, other, node):
+            # loaded_manifests.update(<results of the loader>): further Manifests get registered (or the loader raises)
+            if isinstance(other, VOpaque):
+                d = itp.ctx.choose(3, 'loader-results')
+                if d == 1:
+                    raise PyRaise(VExc('GematoException', [], {}, line=getattr(node, 'lineno', None)))
+                if d == 2:
+                    e = VExc('OSError', [], {}, line=getattr(node, 'lineno', None))
+                    e.attrs['errno'] = VInt(itp.ctx.fresh_const('errno', z3.IntSort()))
+                    raise PyRaise(e)
+                cur = itp.content(cell)
+                itp.set_content(cell, VMap(itp.ctx.fresh_const('loaded_after', cur.t.sort()), cur.kty, cur.vty))
+                return NONE
+            return None
+        it.engine.dict_update_hook = dict_update
+    c.setup = setup
+
+    c.loop(1, header='while True', vars={'to_load': None, 'e': None, 'mpath': None, 'mdir': None, 'manifests': None,
+                                         'curmpath': None, 'relpath': None, 'm': None},
+           havoc_fields=['loaded_manifests'], inv=[('true', lambda s: z3.BoolVal(True))])
+    c.loop(2, header='for (curmpath, relpath, m) in self._iter_manifests_for_path(path, recursive)',
+           vars={'to_load': ToLoad, 'e': None, 'mpath': None, 'mdir': None},
+           inv=[('true', lambda s: z3.BoolVal(True))])
+    c.loop(3, header='for e in m.entries', vars={'to_load': ToLoad, 'mpath': None, 'mdir': None},
+           inv=[('true', lambda s: z3.BoolVal(True))])
+
+    def queued_with_its_entry(s, args, kwargs, raw):
+        pair = args[0]
+        mpath, ent = pair[0], pair[1]
+        cur = s.seq3[s.i3]          # the entry the inner loop is looking at
+        cur_v = s.obj(cur)
+        right_path = mpath == join2(s.cur.relpath, cur_v.path)
+        is_manifest = cur_v.tag == STR('MANIFEST')
+        if ent is None:
+            with_entry = z3.Not(s.verify)
+        else:
+            from vp.contract import UnionView
+            if isinstance(ent, UnionView):
+                with_entry = z3.If(s.verify, z3.And(z3.Not(ent.is_none), ent.val.ref == cur), ent.is_none)
+            else:
+                with_entry = z3.And(s.verify, ent.ref == cur)
+        applies_ = z3.Or(comp_prefix(s, s.path, s.cur.mdir), z3.And(s.recursive, comp_prefix(s, s.cur.mdir, s.path)))
+        return z3.And(right_path, is_manifest, with_entry, applies_)
+    c.site('queued-only-with-its-MANIFEST-entry-unless-verification-is-off', 'to_load.append', queued_with_its_entry, min_sites=2)
+
+    def queue_goes_to_the_loader(s, args, kwargs, raw):
+        return z3.And(args[0].ref == s.self.manifest_loader.ref)
+    c.site('the-queue-is-loaded-by-this-loader-s-ManifestLoader', 'pool.imap_unordered', queue_goes_to_the_loader)
+
+
+_load_for_path_body()
+
+
+@contract('gemato/recursiveloader.py', 'ManifestLoader.__call__', props=['C02', 'C18'])
+def _(c):
+    c.params(self=ML, args=TupleT(Str, Opt(PathEntry)))
+    c.returns(Any)
+    c.only_raises('ManifestMismatch', 'OSError', 'UnsupportedHash', 'ManifestSyntaxError', 'ManifestUnsignedData',
+                  'AssertionError', '<opaque>')
+
+    def passes_both(s, args, kwargs, raw):
+        a = s.args
+        from vp.contract import UnionView
+        want = a[1]
+        got = args[1] if len(args) > 1 else kwargs.get('verify_entry')
+        if want is None:
+            same = got is None or (isinstance(got, UnionView) and z3.is_true(got.is_none))
+            same = z3.BoolVal(bool(same))
+        elif isinstance(want, UnionView):
+            same = z3.BoolVal(got is want or (isinstance(got, UnionView) and got.v is want.v))
+        else:
+            same = got.ref == want.ref if hasattr(got, 'ref') else z3.BoolVal(False)
+        return z3.And(args[0] == a[0], same)
+    c.site('loads-the-queued-path-with-the-queued-entry', 'self.verify_and_load', passes_both)
